@@ -12,6 +12,7 @@ from typing import Any
 from harness.common import Ck, REPO, coq_list, parse_coq_N_list
 from harness import c20_util as U
 from translate import c20_formats as T
+from translate import c20_keytables as KT
 
 MANIFEST = dict(
     technique='Rocq proof (byte-level codec round trips: Hammer command sequences, the scenes.image container driven by a configuration '
@@ -65,6 +66,7 @@ IMP_SMD = ['Coq.Lists.List', 'Coq.NArith.NArith', 'Coq.Arith.PeanoNat', 'Coq.Boo
 IMP_IMG = ['Coq.Lists.List', 'Coq.NArith.NArith', 'Coq.Bool.Bool', 'SV.Fmt.ScenesImage']
 IMP_TXT = ['Coq.Lists.List', 'Coq.NArith.NArith', 'Coq.Bool.Bool', 'SV.Fmt.SndStacks', 'SV.Fmt.VmtQuote', 'SV.Fmt.TextLines', 'SV.Fmt.TextFields', 'SV.Gen.TextFields_gen']
 IMP_CB = ['Coq.Lists.List', 'Coq.NArith.NArith', 'Coq.Bool.Bool', 'Coq.Arith.PeanoNat', 'SV.Fmt.ChoreoBin', 'SV.Gen.ChoreoBin_gen']
+IMP_KT = ['Coq.Lists.List', 'Coq.Strings.String', 'Coq.Bool.Bool', 'Coq.Arith.PeanoNat', 'SV.Fmt.BspDedup', 'SV.Fmt.C20KeyTables', 'SV.Gen.KeyTables_gen']
 IMP_IMGCFG = ['Coq.Lists.List', 'Coq.NArith.NArith', 'Coq.Bool.Bool', 'SV.Fmt.ScenesImage', 'SV.Fmt.ScenesImageCfg', 'SV.Gen.ScenesImg_gen']
 
 PRE = '''Import ListNotations. Open Scope N_scope.
@@ -117,7 +119,7 @@ def par_eval(ck: Ck, jobs: list[tuple]) -> list:
 # '*' (a tie that cannot be attributed: failed build, hygiene, unevaluable group) escalates everything, as Ck.budget would.
 FAMILIES = ('cmdseq', 'smd', 'sndscript', 'vmt', 'pcf', 'vcd-text', 'vcd-binary', 'scenes-image')
 FAMILY_OF_OBLIGATION = (('cmdseq_', 'cmdseq'), ('smd_', 'smd'), ('sndscript_', 'sndscript'), ('vmt_', 'vmt'), ('vcd_text_', 'vcd-text'),
-                        ('vcd_binary_', 'vcd-binary'), ('image_', 'scenes-image'))
+                        ('vcd_binary_', 'vcd-binary'), ('image_', 'scenes-image'), ('pcf_', 'pcf'))
 
 
 def tie_families(tie: str) -> set[str]:
@@ -130,7 +132,8 @@ def tie_families(tie: str) -> set[str]:
     for word, fs in (('cmdseq', ('cmdseq',)), ('CmdSeqFmt_gen', ('cmdseq',)), ('SmdTpl_gen', ('smd',)), ('scenes.image', ('scenes-image',)),
                      ('ScenesImg_gen', ('scenes-image',)), ('scene summary', ('scenes-image',)), ('soundscript', ('sndscript',)),
                      ('VMT', ('vmt',)), ('binary choreo', ('vcd-binary',)), ('ChoreoBin_gen', ('vcd-binary',)),
-                     ('TextFields_gen', ('sndscript', 'vmt', 'vcd-text'))):
+                     ('TextFields_gen', ('sndscript', 'vmt', 'vcd-text')),
+                     ('KeyTables_gen', ('smd', 'pcf', 'scenes-image', 'cmdseq'))):
         if word in tie:
             fams.update(fs)
     return fams or {'*'}
@@ -1150,6 +1153,38 @@ def corr_summary(ck: Ck) -> None:
         ck.extra['summary_disagreement'] = cases[bad[0]][1]
 
 
+# ================================================================================================ keyed tables
+
+KT_FAMILY = {'smd': 'smd_', 'particles': 'pcf_', 'cmdseq': 'cmdseq_', 'sndscript': 'sndscript_', 'vmt': 'vmt_'}
+
+
+def kt_prefix(qual: str) -> str:
+    mod = qual.split('.', 1)[0]
+    if mod == 'choreo':
+        return 'image_' if 'scenes_image' in qual else 'vcd_binary_'
+    return KT_FAMILY.get(mod, 'smd_')
+
+
+def key_table_obligations(side: dict) -> dict[str, str]:
+    """One named boolean per keyed table and per key class of the regenerated census (names carry the format family, so a
+    failing one escalates the search of that format only), plus the reader keys the representable alphabets rely on."""
+    import re as _re
+    obs: dict[str, str] = {}
+    for t in side.get('tables', {}):
+        nm = _re.sub(r'[^A-Za-z0-9]+', '_', t.split('.', 1)[1]).strip('_')
+        obs[f'{kt_prefix(t)}table_{nm}_keeps_apart_whatever_the_reader_keeps_apart'] = f'dedup_ok_named kt_tables "{t}"%string'
+    for c in side.get('classes', {}):
+        nm = _re.sub(r'[^A-Za-z0-9]+', '_', c.split('.', 1)[1]).strip('_')
+        obs[f'{kt_prefix(c)}class_{nm}_eq_ne_hash_agree_and_do_not_normalise_what_they_compare'] = f'class_ok_named kt_classes "{c}"%string'
+    obs['smd_bone_tables_present_in_the_census'] = ('andb (has_table kt_tables "smd.Mesh.export:bone_indexes"%string) '
+                                                    '(has_class kt_classes "smd.Bone"%string)')
+    obs['smd_reader_keys_bones_by_the_exact_name'] = 'reader_key_is kt_reader_keys "smd.Mesh.parse_smd"%string key_name_exact'
+    obs['cmdseq_reader_keys_sequences_by_the_exact_name'] = 'reader_key_is kt_reader_keys "cmdseq.parse"%string key_value_exact'
+    obs['image_string_pool_table_present_and_lookups_normalise_like_stores'] = (
+        'andb (has_table kt_tables "choreo.save_scenes_image_sync:add_to_pool"%string) (no_strings kt_mixed)')
+    return obs
+
+
 # ================================================================================================ oracle search
 
 def trigger(fmt: str, small: Any, res: tuple) -> str:
@@ -1188,7 +1223,26 @@ def trigger(fmt: str, small: Any, res: tuple) -> str:
             return 'unescaped-string'
         if 'scale_settings' in detail:
             return 'unescaped-string'
+    if colliding_names(small):
+        return 'names-equal-after-casefold-or-strip'
     return 'other'
+
+
+def colliding_names(spec: Any) -> bool:
+    """Does the spec hold two different strings that are equal after casefold + whitespace normalisation?"""
+    seen: dict[str, str] = {}
+    todo = [spec]
+    while todo:
+        v = todo.pop()
+        if isinstance(v, dict):
+            todo += list(v.values())
+        elif isinstance(v, list):
+            todo += v
+        elif isinstance(v, str) and v.strip():
+            k = ' '.join(v.casefold().split())
+            if seen.setdefault(k, v) != v:
+                return True
+    return False
 
 
 def search_format(ck: Ck, name: str, n: int) -> None:
@@ -1468,9 +1522,10 @@ def run(ck: Ck) -> None:
     ok3 = ck.translate('ScenesImg_gen', T.translate_scenes_image)
     ok4 = ck.translate('TextFields_gen', T.translate_text_writers)
     ok5 = ck.translate('ChoreoBin_gen', T.translate_choreo_bin)
+    ok6 = ck.translate('KeyTables_gen', KT.translate_keytables)
     built = ck.build(['Props/C20.vo'] + (['Gen/CmdSeqFmt_gen.vo'] if ok1 else []) + (['Gen/SmdTpl_gen.vo'] if ok2 else [])
                      + (['Gen/ScenesImg_gen.vo'] if ok3 else []) + (['Gen/TextFields_gen.vo'] if ok4 else [])
-                     + (['Gen/ChoreoBin_gen.vo'] if ok5 else []))
+                     + (['Gen/ChoreoBin_gen.vo'] if ok5 else []) + (['Gen/KeyTables_gen.vo'] if ok6 else []))
     lap('translate+build')
     finish_theorems = theorems_async(ck, 'Props/C20.v') if built else None
     # the correspondences are generators: they build their cases (Python, consuming ck.rng in a fixed order), yield the Coq jobs, and
@@ -1582,6 +1637,10 @@ def run(ck: Ck) -> None:
             '&& negb (N.eqb cb_type_gesture cb_type_speak)')
     if m_obs:
         tie(ck.instance_obligations(list(dict.fromkeys(m_imps)), m_obs, name='tpl'), ' / '.join(m_what))
+    if built and ok6:
+        # own group: Coq.Strings.String shadows `length` of the other censuses
+        tie(ck.instance_obligations(IMP_KT, key_table_obligations(ck.extra.get('translated', {}).get('KeyTables_gen', {})), name='keys'),
+            'the keyed tables of the writers (dict / set / find_or_insert keys incl. __eq__ / __hash__ of the key class)')
     lap('instance-smd+text+choreo-bin')
     if built and ok4:
         launch(corr_snd_stacks(ck))
@@ -1642,8 +1701,12 @@ def run(ck: Ck) -> None:
     ck.sample({'smd_lines_from_source': ck.extra.get('translated', {}).get('SmdTpl_gen', {}).get('lines', [])[:6]})
     # ---- broken obligations explained by concrete inputs
     keys = [v['key'] for v in ck.violations]
-    if any(k.startswith('smd:read-error') or k.startswith('smd:value-diff') for k in keys):
+    if any(k.startswith(('smd:read-error', 'smd:value-diff', 'smd:write-error', 'smd:regen-diff', 'smd:rewrite-error')) for k in keys):
         ck.explain('instance:smd_')
+    if any(k.startswith('pcf:') for k in keys):
+        ck.explain('instance:pcf_')
+    if any(k.startswith(('smd:', 'pcf:', 'scenes-image:', 'cmdseq:')) for k in keys):
+        ck.explain('translate:KeyTables_gen')
     if any(k.startswith('cmdseq:') for k in keys):
         for o in ('instance:cmdseq_', 'correspondence:cmdseq'):
             ck.explain(o)
